@@ -24,6 +24,9 @@ pub enum Shared {
     /// a compiled program built by the root task; `precommit` = root calls commit() before sharing
     Compiled { case: usize, args: usize, debug: bool, precommit: bool },
     Template { case: usize },
+    /// a compiled program instantiated by the root task from shared template `tmpl`
+    /// (the template and the program stay alive side by side and share whatever they share)
+    Derived { tmpl: usize, case: usize, args: usize, debug: bool },
 }
 
 #[derive(Clone, Debug, PartialEq)]
@@ -33,6 +36,10 @@ pub enum TaskOp {
     Satisfy { obj: usize },
     InstantiateCommit { obj: usize, args: usize, debug: bool },
     CompileCommit { case: usize, args: usize, debug: bool },
+    /// clone the shared handle, drop the clone (reference counts move, nothing else)
+    CloneDrop { obj: usize },
+    /// instantiate from the shared template and keep the program alive until the task ends
+    InstantiateKeep { obj: usize, args: usize, debug: bool },
 }
 
 #[derive(Clone, Debug)]
@@ -48,6 +55,7 @@ impl Scenario {
             "shared": self.shared.iter().map(|s| match s {
                 Shared::Compiled { case, args, debug, precommit } => json!({"kind": "Compiled", "case": case, "args": args, "debug": debug, "precommit": precommit}),
                 Shared::Template { case } => json!({"kind": "Template", "case": case}),
+                Shared::Derived { tmpl, case, args, debug } => json!({"kind": "Derived", "tmpl": tmpl, "case": case, "args": args, "debug": debug}),
             }).collect::<Vec<_>>(),
             "tasks": self.tasks.iter().map(|t| t.iter().map(|op| match op {
                 TaskOp::Commit { obj } => json!({"op": "Commit", "obj": obj}),
@@ -55,6 +63,8 @@ impl Scenario {
                 TaskOp::Satisfy { obj } => json!({"op": "Satisfy", "obj": obj}),
                 TaskOp::InstantiateCommit { obj, args, debug } => json!({"op": "InstantiateCommit", "obj": obj, "args": args, "debug": debug}),
                 TaskOp::CompileCommit { case, args, debug } => json!({"op": "CompileCommit", "case": case, "args": args, "debug": debug}),
+                TaskOp::CloneDrop { obj } => json!({"op": "CloneDrop", "obj": obj}),
+                TaskOp::InstantiateKeep { obj, args, debug } => json!({"op": "InstantiateKeep", "obj": obj, "args": args, "debug": debug}),
             }).collect::<Vec<_>>()).collect::<Vec<_>>(),
         })
     }
@@ -66,6 +76,7 @@ impl Scenario {
             shared.push(match s.get("kind")?.as_str()? {
                 "Compiled" => Shared::Compiled { case: u(s, "case")?, args: u(s, "args")?, debug: b(s, "debug")?, precommit: b(s, "precommit")? },
                 "Template" => Shared::Template { case: u(s, "case")? },
+                "Derived" => Shared::Derived { tmpl: u(s, "tmpl")?, case: u(s, "case")?, args: u(s, "args")?, debug: b(s, "debug")? },
                 _ => return None,
             });
         }
@@ -79,6 +90,8 @@ impl Scenario {
                     "Satisfy" => TaskOp::Satisfy { obj: u(o, "obj")? },
                     "InstantiateCommit" => TaskOp::InstantiateCommit { obj: u(o, "obj")?, args: u(o, "args")?, debug: b(o, "debug")? },
                     "CompileCommit" => TaskOp::CompileCommit { case: u(o, "case")?, args: u(o, "args")?, debug: b(o, "debug")? },
+                    "CloneDrop" => TaskOp::CloneDrop { obj: u(o, "obj")? },
+                    "InstantiateKeep" => TaskOp::InstantiateKeep { obj: u(o, "obj")?, args: u(o, "args")?, debug: b(o, "debug")? },
                     _ => return None,
                 });
             }
@@ -92,6 +105,7 @@ impl Scenario {
             Shared::Compiled { precommit: true, .. } => "shared-committed",
             Shared::Compiled { .. } => "shared",
             Shared::Template { .. } => "template",
+            Shared::Derived { .. } => "shared-from-template",
         };
         let mut tasks: Vec<String> = self
             .tasks
@@ -104,6 +118,8 @@ impl Scenario {
                         TaskOp::Satisfy { obj } => format!("Satisfy({})", sh(*obj)),
                         TaskOp::InstantiateCommit { obj, .. } => format!("Instantiate({});Commit", sh(*obj)),
                         TaskOp::CompileCommit { .. } => "Compile;Commit".to_string(),
+                        TaskOp::CloneDrop { obj } => format!("Clone;Drop({})", sh(*obj)),
+                        TaskOp::InstantiateKeep { obj, .. } => format!("Instantiate({});Commit;Keep", sh(*obj)),
                     })
                     .collect::<Vec<_>>()
                     .join(";")
@@ -165,6 +181,19 @@ fn body(sc: &Scenario, cases: &[Case], sink: &Arc<Mutex<Vec<Obs>>>) {
                 };
                 objs.push(Arc::new(Obj::Template(t, *case)));
             }
+            Shared::Derived { tmpl, case, args, debug } => {
+                let prog = match objs.get(*tmpl).map(|o| &**o) {
+                    Some(Obj::Template(Some(t), _)) => match cases[*case].args.get(*args) {
+                        Some(a) => match ops::instantiate(t, a, *debug) {
+                            Ok(Ok(p)) => Some(Arc::new(p)),
+                            _ => None,
+                        },
+                        None => None,
+                    },
+                    _ => None,
+                };
+                objs.push(Arc::new(Obj::Compiled(prog, *case, *args, *debug)));
+            }
         }
     }
     let cases_arc: Arc<Vec<Case>> = Arc::new(cases.to_vec());
@@ -175,6 +204,7 @@ fn body(sc: &Scenario, cases: &[Case], sink: &Arc<Mutex<Vec<Obs>>>) {
         let sink = Arc::clone(sink);
         let cases = Arc::clone(&cases_arc);
         handles.push(shuttle::thread::spawn(move || {
+            let mut kept: Vec<CompiledProgram> = Vec::new();
             for (oi, op) in tops.iter().enumerate() {
                 let push = |what: String, want: Option<(usize, usize, bool)>, got: Outcome, note: String| {
                     sink.lock().unwrap().push(Obs { task: ti + 1, idx: oi, what, want, got, note });
@@ -222,8 +252,37 @@ fn body(sc: &Scenario, cases: &[Case], sink: &Arc<Mutex<Vec<Obs>>>) {
                             push(format!("CompileCommit({},a={args},d={debug})", c.id), Some((*case, *args, *debug)), got, String::new());
                         }
                     }
+                    TaskOp::CloneDrop { obj } => match objs.get(*obj).map(|o| &**o) {
+                        Some(Obj::Compiled(Some(p), ..)) => {
+                            let c: CompiledProgram = (**p).clone();
+                            drop(c);
+                        }
+                        Some(Obj::Template(Some(t), _)) => {
+                            let c: TemplateProgram = (**t).clone();
+                            drop(c);
+                        }
+                        _ => {}
+                    },
+                    TaskOp::InstantiateKeep { obj, args, debug } => {
+                        if let Some(Obj::Template(Some(t), case)) = objs.get(*obj).map(|o| &**o) {
+                            let c = &cases[*case];
+                            if let Some(a) = c.args.get(*args) {
+                                let got = match ops::instantiate(t, a, *debug) {
+                                    Err(p) => Outcome::Panic(p),
+                                    Ok(Err(e)) => Outcome::Err(e),
+                                    Ok(Ok(p)) => {
+                                        let o = ops::observe_commit(&p);
+                                        kept.push(p);
+                                        o
+                                    }
+                                };
+                                push(format!("InstantiateKeep({},a={args},d={debug})", c.id), Some((*case, *args, *debug)), got, String::new());
+                            }
+                        }
+                    }
                 }
             }
+            drop(kept);
         }));
     }
     for h in handles {
@@ -354,7 +413,15 @@ fn draw_scenario(rng: &mut Prng, cases: &[Case]) -> Scenario {
             shared.push(Shared::Compiled { case, args, debug: rng.coin(), precommit: rng.below(5) == 0 });
         }
     }
-    let n_tasks = rng.range(2, 3);
+    // a program instantiated from a shared template, shared as well
+    let templates: Vec<(usize, usize)> = shared.iter().enumerate().filter_map(|(i, s)| if let Shared::Template { case } = s { Some((i, *case)) } else { None }).collect();
+    if let Some((ti, case)) = templates.first().copied() {
+        if rng.coin() {
+            let args = rng.below(cases[case].args.len());
+            shared.push(Shared::Derived { tmpl: ti, case, args, debug: rng.coin() });
+        }
+    }
+    let n_tasks = if rng.below(8) == 0 { 4 } else { rng.range(2, 3) };
     let mut tasks = Vec::new();
     for _ in 0..n_tasks {
         let n_ops = rng.range(1, 3);
@@ -364,9 +431,14 @@ fn draw_scenario(rng: &mut Prng, cases: &[Case]) -> Scenario {
             let op = match &shared[obj] {
                 Shared::Template { case } => {
                     let args = rng.below(cases[*case].args.len());
-                    TaskOp::InstantiateCommit { obj, args, debug: rng.coin() }
+                    match rng.below(6) {
+                        0 => TaskOp::CloneDrop { obj },
+                        1 | 2 => TaskOp::InstantiateKeep { obj, args, debug: rng.coin() },
+                        _ => TaskOp::InstantiateCommit { obj, args, debug: rng.coin() },
+                    }
                 }
-                Shared::Compiled { case, .. } => match rng.below(10) {
+                Shared::Compiled { case, .. } | Shared::Derived { case, .. } => match rng.below(11) {
+                    10 => TaskOp::CloneDrop { obj },
                     0..=4 => TaskOp::Commit { obj },
                     5 | 6 => TaskOp::CommitClone { obj },
                     7 => TaskOp::Satisfy { obj },
@@ -714,14 +786,14 @@ fn leg_b(o: &Opts) -> i32 {
                         let ok_args = (0..all[*g].args.len()).find(|a| matches!(golden.get(&(*g, *a, false)), Some(Outcome::Ok { .. }))).unwrap_or(0);
                         let mut cand_sc = sc.clone();
                         for sh in cand_sc.shared.iter_mut() {
-                            if let Shared::Compiled { args, .. } = sh {
+                            if let Shared::Compiled { args, .. } | Shared::Derived { args, .. } = sh {
                                 *args = ok_args;
                             }
                         }
                         for t in cand_sc.tasks.iter_mut() {
                             for op in t.iter_mut() {
                                 match op {
-                                    TaskOp::InstantiateCommit { args, .. } | TaskOp::CompileCommit { args, .. } => *args = ok_args,
+                                    TaskOp::InstantiateCommit { args, .. } | TaskOp::CompileCommit { args, .. } | TaskOp::InstantiateKeep { args, .. } => *args = ok_args,
                                     _ => {}
                                 }
                             }
